@@ -163,6 +163,7 @@ type Exec struct {
 	curStmt     ast.Node
 	ghostDec    []*Term
 	topReturns  int
+	nameSuffix  string
 	assumed     []string
 	anchorCache map[*Term][]*Term
 	anchorMu    sync.Mutex
@@ -618,7 +619,7 @@ func (x *Exec) oblName(kind, label string) string {
 		}
 		prefix = strings.Join(parts, "/") + "/"
 	}
-	base := fmt.Sprintf("%s#%s:%s%s", x.top.Name(), kind, prefix, label)
+	base := fmt.Sprintf("%s%s#%s:%s%s", x.top.Name(), x.nameSuffix, kind, prefix, label)
 	x.names[base]++
 	if n := x.names[base]; n > 1 {
 		return fmt.Sprintf("%s~%d", base, n)
